@@ -72,6 +72,7 @@ type SpecDB struct {
 	atomicOnly map[string]bool
 	scans   []*ScanSpec
 	specAliases map[string]specAlias
+	pkgDefault  map[string]*FuncContract
 }
 
 type specAlias struct {
@@ -91,7 +92,7 @@ type ScanSpec struct {
 
 func newSpecDB() *SpecDB {
 	return &SpecDB{funcs: map[string]*FuncContract{}, ifaces: map[string]*FuncContract{}, specFns: map[string]*SpecFunc{},
-		stable: map[string]bool{}, nonnil: map[string]bool{}, ghosts: map[string]Sort{}, guarded: map[string]string{}, atomicOnly: map[string]bool{}, specAliases: map[string]specAlias{}}
+		stable: map[string]bool{}, nonnil: map[string]bool{}, ghosts: map[string]Sort{}, guarded: map[string]string{}, atomicOnly: map[string]bool{}, specAliases: map[string]specAlias{}, pkgDefault: map[string]*FuncContract{}}
 }
 
 func typeOwner(t types.Type) (pkg, name string) {
@@ -183,7 +184,7 @@ func (db *SpecDB) loadContractFile(path, pkgPath string) error {
 		isKeyword := map[string]bool{"func": true, "iface": true, "prop": true, "requires": true, "ensures": true, "at": true, "loop": true,
 			"modifies": true, "nomod": true, "pure": true, "fresh": true, "trusted": true, "safety": true, "noinline": true, "nilable": true,
 			"abstract": true, "define": true, "axiom": true, "stable": true, "nonnil": true, "ghost": true, "params": true, "maypanic": true,
-			"guarded": true, "atomic-only": true, "scan": true, "lemma": true, "end": true, "specname": true, "uses": true}[word]
+			"guarded": true, "atomic-only": true, "scan": true, "lemma": true, "end": true, "specname": true, "uses": true, "package-default": true}[word]
 		if !isKeyword {
 			// continuation of the previous clause / define
 			if pendingSrc != nil {
@@ -354,6 +355,17 @@ func (db *SpecDB) loadContractFile(path, pkgPath string) error {
 			if cur != nil {
 				cur.ParamNames = strings.Fields(rest)
 			}
+		case "package-default":
+			d := &FuncContract{Pkg: pkgPath, Name: "*", LoopInv: map[int][]*Clause{}, Nilable: map[string]bool{}, File: path, Line: ln + 1}
+			for _, w := range strings.Fields(rest) {
+				switch w {
+				case "trusted":
+					d.Trusted = true
+				case "nomod":
+					d.NoMod = true
+				}
+			}
+			db.pkgDefault[pkgPath] = d
 		case "uses":
 			if cur != nil {
 				cur.Uses = append(cur.Uses, strings.Fields(rest)...)
